@@ -13,3 +13,5 @@ import OsyrisProofs.C04
 #print axioms Osyris.C04.axisBox_sound
 #print axioms Osyris.C04.convex_of_interval_preds
 #print axioms Osyris.C04.C04_axis_sound
+#print axioms Osyris.C04.C04_cell_sound
+#print axioms Osyris.C04.C04_selection_sound
